@@ -427,7 +427,11 @@ def d4(cx: Cx, ob: Ob) -> None:
                     ob.violate(m.qualname, where(m, bl), f"canonical URI prefix chosen from `{show(seq)[:60]}`, not sorted(group, key=len)", detail="sort-shape")
             else:
                 kws = dict(seq[3])
-                if kws.get("key") != ("builtin", "len"):
+                key_ = kws.get("key")
+                # ordered by length FIRST (ties broken any way): the head is still a shortest one
+                len_first = op(key_) == "lambda" and len(key_[1]) == 1 and op(key_[2]) == "tuple" and key_[2][1] and key_[2][1][0] == ("call", ("builtin", "len"), (("lv", key_[1][0]),), ())
+                len_lambda = op(key_) == "lambda" and len(key_[1]) == 1 and key_[2] == ("call", ("builtin", "len"), (("lv", key_[1][0]),), ())
+                if key_ != ("builtin", "len") and not len_first and not len_lambda:
                     ob.violate(m.qualname, where(m, bl), f"from_reverse_prefix_map sorts the group with key={show(kws.get('key')) if kws.get('key') else 'None (lexicographic)'}: the canonical URI prefix must be a shortest one", witness="{'https://go.example/': 'GO', 'http://amigo.geneontology.org/amigo/term/GO:': 'GO'}", detail="sort-key")
                 if "reverse" in kws and not is_const(kws["reverse"], False):
                     ob.violate(m.qualname, where(m, bl), "from_reverse_prefix_map sorts longest-first", detail="sort-reverse")
